@@ -90,24 +90,27 @@ Record params := mkparams {
   p_baseline_seq : family -> list check;
   p_reporting_seq : family -> list check;
   p_reporting_flag : family -> bool;   (* the reporting data class passes is_reporting_data=True *)
-  p_offcycle_dq : bool                 (* billing: off-cycle reads are appended to .disqualification *)
+  p_offcycle_dq : bool;                (* billing: off-cycle reads are appended to .disqualification *)
+  p_span_ignores_usage : bool;         (* _complete_rows: the usage column of reporting data is ignored *)
+  p_baseline_adds_usage : family -> bool (* the baseline class adds an all-NaN usage column when it was dropped *)
 }.
 
 Definition is_some {A} (o : option A) : bool := match o with Some _ => true | None => false end.
 
 (* ---------------- data.dropna(), n_days_total ---------------- *)
 
-Definition complete (fr : frame) (r : row) : bool :=
-  (negb (f_has_obs fr) || is_some (r_obs r)) && r_temp r && is_some (r_cov r)
+(* ign: the usage column does not count (reporting data, when the code says so) *)
+Definition complete (ign : bool) (fr : frame) (r : row) : bool :=
+  (ign || negb (f_has_obs fr) || is_some (r_obs r)) && r_temp r && is_some (r_cov r)
   && (negb (f_has_ghi fr) || r_ghi r) && r_aux r.
 
-Definition complete_ts (fr : frame) : list Z := map r_ts (filter (complete fr) (f_rows fr)).
+Definition complete_ts (ign : bool) (fr : frame) : list Z := map r_ts (filter (complete ign fr) (f_rows fr)).
 
 Definition SECONDS_PER_DAY : Z := 86400.
 
 (* (index.max() - index.min()).days + 1 over the complete rows; None = NaN (no complete row) *)
-Definition n_days_total (fr : frame) : option Z :=
-  match complete_ts fr with
+Definition n_days_total (ign : bool) (fr : frame) : option Z :=
+  match complete_ts ign fr with
   | [] => None
   | t :: l => Some ((fold_left Z.max l t - fold_left Z.min l t) / SECONDS_PER_DAY + 1)
   end.
@@ -168,7 +171,7 @@ Record counts := mkcounts {
 
 Definition compute_counts (p : params) (is_rep : bool) (fr : frame) : counts :=
   let rows := f_rows fr in
-  {| c_total := n_days_total fr;
+  {| c_total := n_days_total (is_rep && p_span_ignores_usage p) fr;
      c_valid := to_days (valid_secs (valid_row p is_rep) rows);
      c_meter := if is_rep then 0 else to_days (valid_secs valid_meter_row rows);
      c_temp := to_days (valid_secs (valid_temp_row p) rows) |}.
@@ -308,8 +311,20 @@ Definition dataclass_with_counts (p : params) (f : family) (w : period) (electri
                  ++ (if negb (is_hourly f) && x_unverifiable cx then [UnverifiableTemperature] else [])
                  ++ (if off && negb (p_offcycle_dq p) then [OffcycleWarning] else []))).
 
-Definition dataclass (p : params) (f : family) (w : period) (electric : bool) (cx : ctx) (fr : frame) : outcome :=
+(* the frame the data class hands to the criteria class: a baseline frame whose usage column was dropped (every value
+   missing) gets an all-NaN column back, when the code says so *)
+Definition clear_obs (r : row) : row := mkrow (r_ts r) (r_month r) None (r_temp r) (r_cov r) (r_ghi r) (r_aux r).
+Definition handed_frame (p : params) (f : family) (w : period) (fr : frame) : frame :=
+  match w with
+  | Baseline => if negb (f_has_obs fr) && p_baseline_adds_usage p f
+                then mkframe true (f_has_ghi fr) (map clear_obs (f_rows fr)) else fr
+  | Reporting => fr
+  end.
+
+Definition criteria (p : params) (f : family) (w : period) (electric : bool) (cx : ctx) (fr : frame) : outcome :=
   dataclass_with_counts p f w electric cx fr (compute_counts p (is_reporting_flag p f w) fr).
+Definition dataclass (p : params) (f : family) (w : period) (electric : bool) (cx : ctx) (fr : frame) : outcome :=
+  criteria p f w electric cx (handed_frame p f w fr).
 
 Definition dq_of (o : outcome) : list dqname := match o with Accepted dq _ => dq | Raised _ => [] end.
 Definition warnings_of (o : outcome) : list warnname := match o with Accepted _ w => w | Raised _ => [] end.
@@ -332,19 +347,25 @@ Definition canonical_reporting (f : family) : list check :=
 Definition published : params :=
   {| p_max_len := 365; p_min_len := 329; p_cov_num := 9; p_cov_den := 10; p_tcov_num := 9; p_tcov_den := 10;
      p_baseline_seq := canonical_baseline; p_reporting_seq := canonical_reporting;
-     p_reporting_flag := fun _ => true; p_offcycle_dq := false |}.
+     p_reporting_flag := fun _ => true; p_offcycle_dq := false; p_span_ignores_usage := true;
+     p_baseline_adds_usage := fun _ => true |}.
 
 Definition same_checks (a b : list check) : bool :=
   forallb (fun c => existsb (check_eqb c) b) a && forallb (fun c => existsb (check_eqb c) a) b.
 Definition all_families : list family := [Daily; Billing; Hourly].
 
-(* the regenerated parameters say what the statement says (order of the checks is free; the two flags that
-   carry recorded defects are guards of the theorems instead) *)
+(* the regenerated parameters say what the statement says: thresholds and sets of checks (order of the checks is free) *)
 Definition params_ok (p : params) : bool :=
   (p_max_len p =? 365) && (p_min_len p =? 329)
   && (p_cov_num p =? 9) && (p_cov_den p =? 10) && (p_tcov_num p =? 9) && (p_tcov_den p =? 10)
   && forallb (fun f => same_checks (p_baseline_seq p f) (canonical_baseline f)) all_families
   && forallb (fun f => same_checks (p_reporting_seq p f) (canonical_reporting f)) all_families.
+
+(* ... and the glue of the six data classes is the statement's: reporting data is declared as such, off-cycle reads
+   are warnings, usage is optional for reporting data, a baseline always has a usage column *)
+Definition params_exact (p : params) : bool :=
+  params_ok p && forallb (p_reporting_flag p) all_families && negb (p_offcycle_dq p) && p_span_ignores_usage p
+  && forallb (p_baseline_adds_usage p) all_families.
 
 (* ---------------- the statement, declaratively (used by Properties/C10.v) ----------------
    "the set of disqualifications they report is exactly the set of criteria the data violates: baseline span outside
@@ -375,7 +396,11 @@ Definition month_under90 (present : row -> bool) (rows : list row) (m : Z) : Pro
 Definition some_month_under90 (present : row -> bool) (rows : list row) : Prop :=
   exists m, 1 <= m <= 12 /\ month_under90 present rows m.
 
-Definition has_data_baseline (fr : frame) (r : row) : bool := complete fr r.
+Definition has_data_baseline (fr : frame) (r : row) : bool :=
+  usage_present r && r_temp r && is_some (r_cov r) && (negb (f_has_ghi fr) || r_ghi r) && r_aux r.
+(* representation invariant: a frame without a usage column carries no usage value *)
+Definition frame_wf (fr : frame) : Prop :=
+  f_has_obs fr = false -> forall r, In r (f_rows fr) -> r_obs r = None.
 (* reporting data: usage is optional *)
 Definition has_data_reporting (fr : frame) (r : row) : bool :=
   r_temp r && is_some (r_cov r) && (negb (f_has_ghi fr) || r_ghi r) && r_aux r.
@@ -408,8 +433,7 @@ Definition violates_reporting (f : family) (fr : frame) (n : dqname) : Prop :=
   | _ => False
   end.
 
-(* the usage column of reporting data is absent or complete (otherwise the code measures the span over the rows that
-   have usage - recorded finding) *)
+(* the usage column of reporting data is absent or complete (only needed for parameter records that do not ignore it) *)
 Definition usage_irrelevant (fr : frame) : Prop :=
   f_has_obs fr = false \/ forall r, In r (f_rows fr) -> is_some (r_obs r) = true.
 
@@ -423,15 +447,16 @@ Definition same_shape (r r' : row) : Prop :=
      | _, _ => False
      end.
 
-(* ---------------- what the code reports where it leaves the statement (recorded findings C10-F2, C10-F4) ---------------- *)
+(* ---------------- what a parameter record that leaves the statement reports instead (the repaired findings
+   C10-F2, C10-F4: regression characterisations) ---------------- *)
 
 (* what HourlyReportingData reports while the criteria class is not told that the data is reporting data:
    the usage rules enter completeness and the count of valid days; the baseline-only checks are not run *)
 Definition violates_reporting_as_baseline (fr : frame) (n : dqname) : Prop :=
   let rows := f_rows fr in
-  let span := span_of (complete fr) rows in
+  let span := span_of (complete false fr) rows in
   match n with
-  | NoData => forall r, In r rows -> complete fr r = false
+  | NoData => forall r, In r rows -> complete false fr r = false
   | TooManyDaysMissingData => under90 (whole_days (fun r => usage_present r && temp_valid90 r) rows) span
   | TooManyDaysMissingTemperature => under90 (whole_days temp_valid90 rows) span
   | MissingMonthlyTemperature => some_month_under90 r_temp rows
@@ -443,9 +468,9 @@ Definition violates_reporting_as_baseline (fr : frame) (n : dqname) : Prop :=
    have usage *)
 Definition violates_reporting_span_over_usage (f : family) (fr : frame) (n : dqname) : Prop :=
   let rows := f_rows fr in
-  let span := span_of (complete fr) rows in
+  let span := span_of (complete false fr) rows in
   match n with
-  | NoData => forall r, In r rows -> complete fr r = false
+  | NoData => forall r, In r rows -> complete false fr r = false
   | TooManyDaysMissingData => under90 (whole_days temp_valid90 rows) span
   | TooManyDaysMissingTemperature => under90 (whole_days temp_valid90 rows) span
   | MissingMonthlyTemperature => some_month_under90 r_temp rows
@@ -454,8 +479,9 @@ Definition violates_reporting_span_over_usage (f : family) (fr : frame) (n : dqn
   end.
 
 
-(* the parameters of the statement with the two constructor flags as they are in the code today *)
+(* the parameters of the statement with the glue of the data classes as it was before the five repairs (regression) *)
 Definition as_coded : params :=
   {| p_max_len := 365; p_min_len := 329; p_cov_num := 9; p_cov_den := 10; p_tcov_num := 9; p_tcov_den := 10;
      p_baseline_seq := canonical_baseline; p_reporting_seq := canonical_reporting;
-     p_reporting_flag := fun f => match f with Hourly => false | _ => true end; p_offcycle_dq := true |}.
+     p_reporting_flag := fun f => match f with Hourly => false | _ => true end; p_offcycle_dq := true;
+     p_span_ignores_usage := false; p_baseline_adds_usage := fun f => match f with Hourly => true | _ => false end |}.
